@@ -5,6 +5,7 @@
   except when the script is exhausted and nothing changed, in which case `scan` is waiting too.
 -/
 import NxsModel.Lemmas.Reasm
+import NxsModel.Route
 namespace Nxs
 namespace Reasm
 open Serial (Hdr Frame)
@@ -336,6 +337,79 @@ theorem run_eq_scan (chunks : List Bytes) : run c chunks = scan c chunks.flatten
   rw [runLoop_spec hc _ _ _ (by simp [mu]; omega)]
   rfl
 
+
+/-- the machine on a continued script: what it delivers for the reads `cs₁` followed by the reads `cs₂` is
+    what it delivered for `cs₁`, then the scan of (the candidate it was waiting on ++ the new bytes) -/
+theorem run_resume (cs₁ cs₂ : List Bytes) :
+    run c (cs₁ ++ cs₂) = run c cs₁ ++ scan c (scanRest c cs₁.flatten ++ cs₂.flatten) := by
+  rw [run_eq_scan hc, run_eq_scan hc, List.flatten_append, scan_resume hc]
+
 end Laws
+
+/-! ### routing of the delivered frames (`_recv_thread`) -/
+
+/-- the receive thread drops exactly the ACK frames that arrive while no device is known -/
+def droppedAck (hasDev : Bool) (f : Frame) : Bool := !hasDev && decide (f.fid = Gen.Ids.idACK)
+
+theorem queues_eq_filter (hasDev : Bool) (frs : List Frame) :
+    (Route.queues hasDev frs).2 = frs.filter (fun f => decide (f.fid = Gen.Ids.idSTREAM)) ∧
+    (Route.queues hasDev frs).1 =
+      frs.filter (fun f => !decide (f.fid = Gen.Ids.idSTREAM) && !droppedAck hasDev f) := by
+  have hne : Gen.Ids.idACK ≠ Gen.Ids.idSTREAM := by decide
+  induction frs with
+  | nil => simp [Route.queues]
+  | cons fr r ih =>
+    obtain ⟨ih1, ih2⟩ := ih
+    have hq : Route.queues hasDev (fr :: r) =
+        (match Route.dest hasDev fr with
+          | .stream => ((Route.queues hasDev r).1, fr :: (Route.queues hasDev r).2)
+          | .resp => (fr :: (Route.queues hasDev r).1, (Route.queues hasDev r).2)
+          | .dropped => ((Route.queues hasDev r).1, (Route.queues hasDev r).2)) := rfl
+    rw [hq]
+    by_cases h1 : fr.fid = Gen.Ids.idSTREAM
+    · have hd : Route.dest hasDev fr = .stream := by simp [Route.dest, h1]
+      rw [hd]
+      simp [h1, ih1, ih2]
+    · by_cases h2 : hasDev = false ∧ fr.fid = Gen.Ids.idACK
+      · have hd : Route.dest hasDev fr = .dropped := by simp [Route.dest, h2.1, h2.2, hne]
+        rw [hd]
+        obtain ⟨ha, hb⟩ := h2
+        subst ha
+        simp [hb, hne, ih1, ih2, droppedAck]
+      · have hd : Route.dest hasDev fr = .resp := by
+          simp only [Route.dest, h1, if_false]
+          cases hasDev <;> simp_all
+        rw [hd]
+        have : droppedAck hasDev fr = false := by
+          unfold droppedAck
+          cases hasDev <;> simp_all
+        simp [h1, this, ih1, ih2]
+
+/-- nothing is invented, lost or duplicated by the routing: the two queues together hold, up to the
+    interleaving, exactly the delivered frames that are not dropped ACKs -/
+theorem queues_perm (hasDev : Bool) (frs : List Frame) :
+    ((Route.queues hasDev frs).1 ++ (Route.queues hasDev frs).2).Perm
+      (frs.filter (fun f => !droppedAck hasDev f)) := by
+  obtain ⟨h2, h1⟩ := queues_eq_filter hasDev frs
+  rw [h1, h2]
+  clear h1 h2
+  have hne : Gen.Ids.idACK ≠ Gen.Ids.idSTREAM := by decide
+  induction frs with
+  | nil => simp
+  | cons fr r ih =>
+    by_cases hs : fr.fid = Gen.Ids.idSTREAM
+    · have hd : droppedAck hasDev fr = false := by
+        unfold droppedAck; rw [hs]; simp [Ne.symm hne]
+      simp only [List.filter_cons, hs, decide_true, Bool.not_true, Bool.false_and, hd, Bool.not_false]
+      simp only [Bool.false_eq_true, if_false, if_true]
+      exact (List.perm_middle).trans (List.Perm.cons _ ih)
+    · by_cases hd : droppedAck hasDev fr = true
+      · simp only [List.filter_cons, hs, decide_false, hd, Bool.not_true, Bool.and_false]
+        simpa using ih
+      · have hd' : droppedAck hasDev fr = false := by simpa using hd
+        simp only [List.filter_cons, hs, decide_false, hd', Bool.not_false, Bool.and_self]
+        simp only [Bool.false_eq_true, if_false, if_true, List.cons_append]
+        exact List.Perm.cons _ ih
+
 end Reasm
 end Nxs
